@@ -476,7 +476,8 @@ pub fn micro(s: &MState, t: usize, op: &Op, j: u8, uv: u64) -> Option<Vec<Out>> 
         Op::SemCancel(sm, k, polls) => {
             // micro-ops: 0 = first poll; with two polls: 1 = scheduling point, 2 = second poll; last = drop.
             // A poll that completes the acquisition is followed by a separate release micro-op.
-            let last = if *polls >= 2 { 3 } else { 1 };
+            // polls == 0: first poll, scheduling point, drop (no second poll)
+            let last = if *polls >= 2 { 3 } else if *polls == 0 { 2 } else { 1 };
             if s.tasks[t].holding {
                 n.tasks[t].holding = false;
                 n.sem[*sm].release(*k);
